@@ -808,6 +808,25 @@ func chainConcatOrder(c *core.Ctx) {
 				m++
 				key := "apply-order/" + core.FuncName(fd)
 				direct := len(body.List) == 1
+				// a guard that only skips a nil element (which used to panic) leaves every real option applied
+				if !direct {
+					if dnf, trunc := astx.PathConditions(info, body, call); !trunc && len(dnf) == 1 {
+						onlyNil := true
+						for _, f := range dnf[0] {
+							l, op, r, ok := astx.CompareOp(f.Expr)
+							if !ok || !astx.IsNil(info, r) || !isElem(l) || (op == token.NEQ) != f.Pol {
+								onlyNil = false
+							}
+						}
+						stmts := 0
+						for _, st := range body.List {
+							if _, isIf := st.(*ast.IfStmt); !isIf {
+								stmts++
+							}
+						}
+						direct = onlyNil && stmts == 1
+					}
+				}
 				c.Check(dir == dirAsc && direct, key, call.Pos(), "options applied in %s order, unconditionally=%v", dir, direct)
 			}
 		}
